@@ -135,6 +135,19 @@ func (s *Sim) arrived(name string, v *srcVersion) bool {
 			return true
 		}
 	}
+	// sts tells versions apart by size and modification time: a version that
+	// has both in common with an earlier one (rewritten in place with the time
+	// restored, or touched back to the old time) cannot be told from it, and
+	// the delivery of that one is all that can be asked for
+	for _, u := range s.ob.versions[name] {
+		if u != v && u.Size == v.Size && u.Mtime.Equal(v.Mtime) {
+			for _, a := range s.ob.arrivals {
+				if a.MD5 == u.MD5 && s.arrivalIsOf(a, name) {
+					return true
+				}
+			}
+		}
+	}
 	return false
 }
 
